@@ -265,6 +265,34 @@ class TransformationPerformer:
             transformation_inst, index, tflite_model
         )
 
+  def _remap_signature_outputs(
+      self,
+      tflite_model: schema_py_generated.ModelT,
+      subgraph_outputs_before: list[list[int]],
+  ):
+    """Keep signature outputs pointing at the (possibly rewired) graph outputs.
+
+    Args:
+      tflite_model: the transformed tflite model
+      subgraph_outputs_before: the outputs of every subgraph before the
+        transformations were applied
+
+    Returns:
+      None, update the signature defs of tflite_model in place
+    """
+    if tflite_model.signatureDefs is None:
+      return
+    for signature_def in tflite_model.signatureDefs:
+      if signature_def.outputs is None:
+        continue
+      old_outputs = subgraph_outputs_before[signature_def.subgraphIndex]
+      new_outputs = tflite_model.subgraphs[signature_def.subgraphIndex].outputs
+      for tensor_map in signature_def.outputs:
+        for output_index, old_output in enumerate(old_outputs):
+          if tensor_map.tensorIndex == old_output:
+            tensor_map.tensorIndex = new_outputs[output_index]
+            break
+
   def transform_graph(
       self,
       transformation_instructions: dict[str, qtyping.TensorTransformationInsts],
@@ -283,5 +311,9 @@ class TransformationPerformer:
     self._original_op_id_map = []
     self._added_op_id_map = []
     self._create_op_id_map(tflite_model)
+    subgraph_outputs_before = []
+    for subgraph in tflite_model.subgraphs:
+      subgraph_outputs_before.append(list(subgraph.outputs))
     for transformation_inst in transformation_instructions.values():
       self._apply_transformations(transformation_inst, tflite_model)
+    self._remap_signature_outputs(tflite_model, subgraph_outputs_before)
